@@ -137,8 +137,22 @@ func bind(r *rand.Rand, i int, algos []string, ops []opSpec, src string, model m
 		if v, ok := model["limit"].(bool); ok && v && hasKind(ops, "Edit", "grow") {
 			cs.Max = 30
 		}
+		// A history of the no-watch model is also a history of a polling
+		// endpoint whose poller never fires again; there the full flag decides
+		// between the poller's snapshot and a fresh scan.
+		if cs.Watch == "nowatch" && !cs.Alpha && r.Intn(4) == 0 {
+			cs.Watch = "poll"
+			flipped := make([]opSpec, len(ops))
+			copy(flipped, ops)
+			for i := range flipped {
+				if flipped[i].Op == "Scan" && r.Intn(2) == 0 {
+					flipped[i].Full = true
+				}
+			}
+			cs.Ops = flipped
+		}
 	} else {
-		if r.Intn(5) == 0 {
+		if r.Intn(4) == 0 {
 			cs.Watch = "poll"
 		}
 		if r.Intn(14) == 0 {
@@ -170,10 +184,14 @@ func randomOps(r *rand.Rand, n int) []opSpec {
 				ops = append(ops, opSpec{Op: "Edit", Kind: "grow"})
 			}
 			grown = !grown
-		case k < 12:
+		case k < 11:
 			ops = append(ops, opSpec{Op: "Scan", Full: r.Intn(2) == 0, Anc: ancs[r.Intn(len(ancs))], Cancel: r.Intn(9) == 0})
-		case k < 13:
+		case k < 12:
 			ops = append(ops, opSpec{Op: "Scan", Anc: "prev"}, opSpec{Op: "Stage"})
+		case k < 13:
+			// a second staging finds part of what it needs already in the store
+			ops = append(ops, opSpec{Op: "Scan", Anc: "prev"}, opSpec{Op: "Stage"}, opSpec{Op: "Edit", Kind: "src"},
+				opSpec{Op: "Scan", Anc: "prev"}, opSpec{Op: "Stage"}, opSpec{Op: "Trans"})
 		case k < 14:
 			// staged content that is stale by the time it is applied
 			ops = append(ops, opSpec{Op: "Scan", Anc: "src"}, opSpec{Op: "Stage"}, opSpec{Op: "Edit", Kind: "src"}, opSpec{Op: "Trans"})
